@@ -180,7 +180,7 @@ func verifyFunc(prog *Prog, sp *FuncSpec) (res *FuncResult) {
 		fv.setupAllocBudget()
 	}
 	end := fv.execBlock(fd.decl.Body.List, st)
-	if end != nil {
+	if end != nil && !endsInTerminatingLoop(fd.decl.Body) {
 		fv.finishReturn(end, fd.decl.End())
 	}
 	fv.finish(res)
@@ -261,4 +261,54 @@ func (fv *FuncVerifier) setupAllocBudget() {
 	fv.allocBudget = func(st *State) Term {
 		return fv.evalWrapper(fv.spec.PkgPath, name, fv.entryVals(), st, fv.entry)
 	}
+}
+
+// endsInTerminatingLoop: the body ends with `for { ... }` without a condition and without a break
+// that refers to it - a terminating statement in the Go specification's sense, so control never
+// falls off the end of the function (the state after the loop is unreachable).
+func endsInTerminatingLoop(body *ast.BlockStmt) bool {
+	if body == nil || len(body.List) == 0 {
+		return false
+	}
+	last := body.List[len(body.List)-1]
+	label := ""
+	if ls, ok := last.(*ast.LabeledStmt); ok {
+		label = ls.Label.Name
+		last = ls.Stmt
+	}
+	fs, ok := last.(*ast.ForStmt)
+	if !ok || fs.Cond != nil {
+		return false
+	}
+	hasBreak := false
+	var walk func(n ast.Node, depth int)
+	walk = func(n ast.Node, depth int) {
+		ast.Inspect(n, func(m ast.Node) bool {
+			switch x := m.(type) {
+			case *ast.FuncLit:
+				return false
+			case *ast.ForStmt, *ast.RangeStmt, *ast.SwitchStmt, *ast.TypeSwitchStmt, *ast.SelectStmt:
+				if m != n {
+					// unlabelled breaks inside refer to the inner statement
+					ast.Inspect(m, func(k ast.Node) bool {
+						if _, isLit := k.(*ast.FuncLit); isLit {
+							return false
+						}
+						if b, ok := k.(*ast.BranchStmt); ok && b.Tok == token.BREAK && b.Label != nil && b.Label.Name == label {
+							hasBreak = true
+						}
+						return true
+					})
+					return false
+				}
+			case *ast.BranchStmt:
+				if x.Tok == token.BREAK && (x.Label == nil || x.Label.Name == label) {
+					hasBreak = true
+				}
+			}
+			return true
+		})
+	}
+	walk(fs.Body, 0)
+	return !hasBreak
 }
